@@ -68,7 +68,7 @@ def gen_cases(tier, seed):
         yield "send", {
             "kind": kind, "signed": signed, "salt": rng.getrandbits(48), "net": NETS[i % 3],
             "n_utxo": n_utxo, "vout_mode": rng.choice(["zero", "index", "zero", "random"]),
-            "amount_mode": rng.choice(["plain", "plain", "hostile", "tiny", "huge"]),
+            "amount_mode": rng.choice(["plain", "plain", "hostile", "tiny", "huge", "with_zero"]),
             "fraction": rng.choice([1.0, 1.0, 1.0, 0.5, 0.1, 0.9999, 0.99999, round(rng.uniform(0.01, 0.99), 6)]),
             "fee": rng.choice([1000, 1000, 0, 1, 12345, 999]), "version": rng.choice([1, 1, 2]), "locktime": rng.choice([0, 0, 5, 500000000 + 7]),
             "flag": FLAGS[0] if rng.random() < 0.55 else rng.choice(FLAGS), "recipient": rng.choice(["p2pkh", "p2sh", "segwit0", "segwit1", "pubkey", "raw"]),
@@ -114,7 +114,7 @@ def _boundary_cases(rng, n):
 
 
 def required(tier):
-    return {"class.change_near_dust_or_fee_boundary": 40, "send.via_cli": 80, "ground.signed_with_short_high_s": 4, "send.returned": 450, "send.signed_decided": 300, "send.unsigned_decided": 50, "inputs.verified": 400,
+    return {"class.change_near_dust_or_fee_boundary": 40, "class.zero_value_utxo": 25, "send.via_cli": 80, "ground.signed_with_short_high_s": 4, "send.returned": 450, "send.signed_decided": 300, "send.unsigned_decided": 50, "inputs.verified": 400,
             "class.amount_hostile": 60, "class.vout_ne_index": 60, "class.multi_input": 100, "class.version2_or_locktime": 100,
             "class.recipient_raw": 40, "class.change_present": 100, "class.change_subdust": 3, "selfcheck.ok": 3,
             "kind.segwit.valid": 80, "kind.legacy.valid": 80}
@@ -218,6 +218,12 @@ def make_dest(kind, rng, net):
 
 
 def amounts(rng, mode, n):
+    if mode == "with_zero":
+        out = [rng.choice([rng.randrange(10 ** 5, 10 ** 8), 5000000000]) for _ in range(n)]
+        out[rng.randrange(max(1, n - 1))] = 0          # a zero-value output, preferably NOT the last one
+        if sum(out) == 0:
+            out[-1] = rng.randrange(10 ** 5, 10 ** 8)
+        return out
     if mode.startswith("fixed:"):
         return [int(mode.split(":")[1])] + [rng.randrange(10 ** 4, 10 ** 6) for _ in range(n - 1)]
     out = []
@@ -289,6 +295,8 @@ def run_case(kind, params, ctx):
     vout_ne_index = any(u["vout"] != j for j, u in enumerate(utxos))
     if hostile:
         ctx.count("class.amount_hostile")
+    if 0 in sats and n_utxo > 1:
+        ctx.count("class.zero_value_utxo")
     if vout_ne_index:
         ctx.count("class.vout_ne_index")
     if params["version"] != 1 or params["locktime"] != 0:
